@@ -248,8 +248,10 @@ func (w *World) Reopen() {
 // Close deletes the cache instance (skipped for pooled caches, whose whole directory is dropped instead:
 // badger's DropPrefix stalls every writer of the DB).
 func (w *World) Close() {
-	if w.Opts.MakeTarget != nil && w.Target != nil {
-		_ = w.Target.Close() // production targets hold connections
+	// targets that hold connections of their own and can be closed without waiting say so (the scrapligo driver's
+	// Close blocks for ever once its reader has seen EOF, so Close is not called on arbitrary targets)
+	if c, ok := w.Target.(interface{ CloseForWorld() }); ok {
+		c.CloseForWorld()
 	}
 	if _, pooled := w.Raw.(*pooledCache); pooled {
 		return
